@@ -1,6 +1,7 @@
 package rules
 
 import (
+	"gldapverif/report"
 	"go/token"
 	"regexp"
 	"sort"
@@ -15,7 +16,7 @@ import (
 func init() {
 	Registry["C01"] = checkC01
 	Descriptions["C01"] = "Engine E1/E5 (decode side): newMessage and the *Parameters methods it calls are interpreted symbolically along every success path (branches from which only one side can still succeed are forced, genuine forks enumerated, range loops as one symbolic element); the origin of every exported message field is an expression over the BER tree and is compared with a table transcribed from RFC 4511 (position, accessor, list construction over the whole child list, order). " +
-		"C01-kindmap (protocolOp tag -> kind -> message type -> route operation compose to the RFC bijection; unknown tags are an error), C01-version (a Bind succeeds only if version == 3), C01-field / C01-list (field origins), C01-assert (every class/type/tag assertion on a table node carries the RFC's values), C01-reach (every well-formed shape has a success path), C01-readonly-data (between ReadPacket and the handler only non-consuming bytes.Buffer methods touch a received packet's Data), C01-stream-sync (after a failed read the read loop never reads the connection again, unless the failure is a sentinel produced nowhere after a ber.ReadPacket call). " +
+		"C01-kindmap (protocolOp tag -> kind -> message type -> route operation compose to the RFC bijection; unknown tags are an error), C01-version (a Bind succeeds only if version == 3), C01-field / C01-list (field origins), C01-assert (every class/type/tag assertion on a table node carries the RFC's values), C01-reach (every well-formed shape has a success path), C01-readonly-data (between ReadPacket and the handler only non-consuming bytes.Buffer methods touch a received packet's Data), C01-stream-sync (after a failed read the read loop never reads the connection again, unless the failure is a sentinel produced nowhere after a ber.ReadPacket call), C01-fresh-controls (every decoded control is allocated by the call that decodes it: rule C14-fresh). " +
 		"Values are never inspected. Trusted: ldap.DecompileFilter, ber.ReadPacket."
 }
 
@@ -624,6 +625,9 @@ func checkC01(c *Ctx) {
 				"after a failed read the loop reads the connection again ("+c.trail(w)+"): a read that gave up in the middle of a request (timeout inside ber.ReadPacket) has consumed part of it, and the next request is decoded from the middle of the client's bytes")
 		}
 	}
+	// ---- C01-fresh-controls: "attached controls equal what the client encoded" also after other requests have been
+	// decoded: each decoded control is an object of its own (rule C14-fresh, imported)
+	c.importRules(checkC14, func(o report.Obligation) bool { return o.Rule == "C14-fresh" }, "C01-fresh-controls", " - the controls a handler was given no longer equal what its client encoded")
 	R.Floor("C01-readonly-data", 2)
 	R.Floor("C01-field", 20)
 	R.Floor("C01-list", 5)
